@@ -141,9 +141,28 @@ package parser
 //@   inherit
 //@   ensures @C09 implies(err == nil, isnew(result0.Tokens) && isnew(result0.PositionMapping))
 //@   loop * invariant @C09 isnew(positions)
+//@   ensures @C20 implies(succeeded(), cost() <= 80*len(tokens) + 4*acc() + 64)
+//@   loop 1 invariant @C20 0 <= rangeindex + 1 && rangeindex + 1 <= len(tokens) && len(tc.buffer) <= 4*(rangeindex + 1) && acc() >= 0 && cost() <= 64*(rangeindex + 1) + 4*acc() + 8
+//@   loop 2 invariant @C20 0 <= rangeindex + 1 && rangeindex + 1 <= len(expanded) && acc() == pre(acc()) && cost() - pre(cost()) <= 2*(rangeindex + 1) + 2
 //@ func convertModelTokens
 //@   inherit
 //@   ensures @C09 implies(err == nil, isnew(result0))
 //@ func convertModelTokensWithPositions
 //@   inherit
 //@   ensures @C09 implies(err == nil, isnew(result0.Tokens) && isnew(result0.PositionMapping))
+
+// Cost of the token conversion (C20): one pass over the tokens; per token a constant plus the length of its text
+// (the keyword re-typing upper-cases the text once). acc() is the total length of the token texts handed to
+// convertSingleToken by the calls made (`accrues`), so the bound reads: a constant per token plus the text re-typed.
+//@ func getIdentifierKeywordType
+//@   ensures @C20 cost() <= 2*len(value) + 8
+//@   loop 1 invariant @C20 0 <= i && i <= n && n == len(value) && cost() <= i + 4
+//@ func getKeywordModelType
+//@   ensures @C20 cost() <= 2*len(value) + 8
+//@   loop 1 invariant @C20 0 <= i && i <= n && n == len(value) && cost() <= i + 4
+//@ func (*tokenConverter).convertSingleToken
+//@   inherit
+//@   accrues len(t.Token.Value)
+//@   ensures @C20 cost() <= 2*len(t.Token.Value) + 16
+//@ func (*tokenConverter).handleCompoundToken
+//@   ensures @C20 cost() <= 8 && len(result0) <= 4
